@@ -168,6 +168,25 @@ def run_inproc(ck, d, n_cases):
             '(dir with state files of these and other targets, symlink, file, absent; state file as dir/dangling link) x 1-4 '
             'operations; non-trivial = distinct (tree, targets, operation prefix) where the operation deletes something or the '
             'tree has a symlink; compared: ok/err and the full snapshot after every operation')
+    # extraction is itself checked: a sample of first operations is re-evaluated by vm_compute inside Coq
+    if ck.tier != 'quick':
+        cands = [cid for cid, (tree, targets, pdirs, ops) in meta.items() if ops[0][0] in ('outputs', 'state') and len(tree) <= 30]
+        sample = ck.rng.sample(cands, min(40, len(cands)))
+        cases = []
+        for cid in sample:
+            tree, targets, pdirs, ops = meta[cid]
+            cases.append((tree, {t['tid']: t for t in targets}[ops[0][1]], ops[0][0]))
+        got = fs.coq_eval_clean(cases, d)
+        for cid, (tree, tg, op), g in zip(sample, cases, got):
+            ck.tally('vm_compute_crosscheck')
+            m = model.get(cid + '.1')
+            msnap = fs.parse_snapshot(m[1]) if m else None
+            ok = g is not None and m is not None and g[0] == (m[0] == 'ok') and all((p in msnap) == alive for p, alive in g[1].items())
+            if not ok:
+                ck.violation({'kind': 'extraction-crosscheck', 'case': cid, 'operation': op, 'vm_compute': repr(g), 'extracted_runner': m,
+                              'what': 'the extracted OCaml model and vm_compute inside Coq disagree on FsTree.%s' %
+                                      ('clean_outputs' if op == 'outputs' else 'delete_state')}, found_input=False)
+        ck.extra['extraction_crosscheck'] = '%d clean operations re-evaluated with vm_compute inside Coq, compared with the extracted runner' % len(sample)
     ndiff = 0
     for cid, (tree, targets, pdirs, ops) in meta.items():
         by_tid = {t['tid']: t for t in targets}
